@@ -206,6 +206,8 @@ def get_attr(st, obj, attr, n=None):
         cls = obj.t.name
         if not st.spec:
             check_or_raise(st, obj.z != 0, 'AttributeError')
+        if cls == 'Logger':
+            return Val(T.FN, FnV('noop', attr))       # logging: no effect on verified state
         dcls, fty = R.find_field(cls, attr)
         if dcls is not None:
             return st.read_field(obj.z, cls, attr)
